@@ -25,7 +25,7 @@ RULE = ('table of every public data operation of Cache, FanoutCache, DjangoCache
 DISTINCT = ('cases',)
 REQUIRED = ('cache_timeouts_raised', 'cache_retry_waited', 'bulk_partial_timeouts', 'fanout_reported', 'django_reported',
             'deque_waited', 'index_waited', 'lockfree_reads_ok', 'fault_taken_after_file_write', 'writing_lookups',
-            'sibling_block_cases', 'rollback_journal_cases')
+            'sibling_block_cases', 'rollback_journal_cases', 'commit_timeouts_raised', 'commit_retries_waited')
 ASSUMPTIONS = ('stats()/reset() are configuration calls with their own retry loop and are not driven',
                'the holder is a plain sqlite3 connection holding BEGIN IMMEDIATE on the same database file, or (sibling '
                'tier) a transact() block of another thread on the same Cache object')
@@ -609,6 +609,120 @@ def sibling_cases():
             yield ('sibling ' + label, call, True, ending)
 
 
+# ------------------------------------- the lock that cannot be had is the exclusive lock of COMMIT (rollback journal)
+class Reader:
+    """A plain connection inside a read transaction: in a rollback-journal database a writer can begin and write, but
+    its COMMIT cannot get the exclusive lock while this SHARED lock exists."""
+
+    def __init__(self, d):
+        self.con = sqlite3.connect(os.path.join(d, 'cache.db'), isolation_level=None, timeout=0)
+        self.held = False
+
+    def take(self):
+        self.con.execute('BEGIN')
+        self.con.execute('SELECT COUNT(*) FROM Cache').fetchall()
+        self.held = True
+
+    def release(self):
+        if self.held:
+            self.con.execute('ROLLBACK')
+            self.held = False
+
+    def close(self):
+        self.release()
+        self.con.close()
+
+
+class ReaderFault:
+    def __init__(self, reader, k):
+        self.reader, self.k, self.failed = reader, k, 0
+
+    def gate(self, label, info=None):
+        if label == 'err:COMMIT':
+            self.failed += 1
+            if self.k is not None and self.failed == self.k:
+                self.reader.release()
+
+
+def reader_case(dc, sc, res, label, call, retry, k):
+    d, twin_d = sc.new(), sc.new()
+    journal = 'delete'
+    wit = {'label': label, 'class': 'Cache', 'fault': 'another connection holds a read transaction while the call commits '
+           '(rollback journal)', 'retry': retry, 'reader_leaves_after_failed_commits': k}
+    cache = dc.Cache(d, timeout=0, disk_min_file_size=T, sqlite_journal_mode=journal)
+    twin = dc.Cache(twin_d, timeout=0, disk_min_file_size=T, sqlite_journal_mode=journal)
+    populate(cache)
+    populate(twin)
+    reader = Reader(d)
+    ctrl = ReaderFault(reader, k)
+    try:
+        before = snapshot([d])
+        reader.take()
+        probe.set_controller(ctrl)
+        try:
+            got = ('ok', call(cache, retry))
+        except dc.Timeout as exc:
+            got = ('Timeout', exc.args)
+        except Exception as exc:       # noqa: BLE001
+            got = ('raise', '%s: %s' % (type(exc).__name__, exc))
+        probe.set_controller(None)
+        still = reader.held
+        reader.release()
+        res.count('evaluations')
+        res.seen('cases', ('Cache', label, 'reader-at-commit', retry, k))
+        if not ctrl.failed:
+            res.count('reader_cases_without_commit_conflict')        # the call wrote nothing (e.g. peek of a live head)
+            return
+        if not retry:
+            if got[0] != 'Timeout':
+                res.violation('%s whose COMMIT cannot get its lock (a reader is active) with retry off: expected Timeout, got %r' % (
+                    label, got), wit)
+                return
+            after = snapshot([d])
+            if after != before:
+                res.violation('%s raised Timeout at COMMIT but changed the cache: %s' % (label, diff(before, after)), wit)
+                return
+            res.count('commit_timeouts_raised')
+        else:
+            if got[0] != 'ok' or still:
+                res.violation('%s with retry whose COMMIT had to wait for a reader: expected to wait and succeed, got %r '
+                              '(reader still active: %s)' % (label, got, still), wit)
+                return
+            want = ('ok', call(twin, retry))
+            if norm(got) != norm(want) or contents(dc, [d]) != contents(dc, [twin_d]):
+                res.violation('%s after waiting for a reader at COMMIT differs from a fault-free twin: %r vs %r' % (
+                    label, got, want), wit)
+                return
+            res.count('commit_retries_waited')
+        # the handle is as usable as before
+        try:
+            cache.set('afterwards', BIG)
+            ok = cache.get('afterwards') == BIG and cache.pop('afterwards') == BIG
+        except Exception as exc:       # noqa: BLE001
+            ok = False
+            wit = dict(wit, later_call='%s: %s' % (type(exc).__name__, exc))
+        problems = observe.invariant(d)
+        if not ok or problems:
+            res.violation('%s: after a COMMIT that could not get its lock the handle is unusable or the cache inconsistent: %r' % (
+                label, problems[:3]), wit)
+    finally:
+        probe.set_controller(None)
+        reader.close()
+        for o in (cache, twin):
+            try:
+                o.close()
+            except Exception:      # noqa: BLE001
+                pass
+        sc.drop(d)
+        sc.drop(twin_d)
+
+
+def reader_cases():
+    for label, call in cache_ops().items():
+        yield ('reader at commit: ' + label, call, False, None)
+        yield ('reader at commit: ' + label, call, True, 2)
+
+
 def read_all(h):
     try:
         return h.read()
@@ -638,6 +752,12 @@ def run_shard(tier, seed, shard, nshards, res):
             if expect in ('timeout', 'bulk') and 'get' in label or label.startswith('read ('):
                 res.count('writing_lookups')
             run_case(dc, sc, res, label, make, dirs_of, call, fault, retry, timeout, expect, cls)
+            if res.counters.get('violations_raw', 0) > 10:
+                return
+        for i, (label, call, retry, k) in enumerate(reader_cases()):
+            if i % nshards != shard:
+                continue
+            reader_case(dc, sc, res, label, call, retry, k)
             if res.counters.get('violations_raw', 0) > 10:
                 return
         for i, (label, call, retry, ending) in enumerate(sibling_cases()):
